@@ -27,11 +27,11 @@ package metadatapart
 //@ ensures[C24:copy-conditions-same-storage] object != nil ==> (err != nil) == specCopyConditionsFail(conditions, object.ETag, object.LastModified)
 
 // A read of the whole object (no range requested) is never refused as an invalid range, whatever the object's size:
-// the only errors come from looking up a part's store or from the internal consistency check. (The migrator, C37,
+// InvalidRange can then only be what the lookup of a part's store answered. (The migrator, C37,
 // reads every source object this way; an empty object must be readable.)
 //@ func (*metadataPartStorage).createRangeReader
 //@ mode effects
 //@ requires object != nil
-//@ ensures[C37:whole-object-read-not-refused] byteRange.Start == nil && byteRange.End == nil && err != nil ==>
-//@     called(mbs.partStores.ByName) || called(fmt.Errorf)
+//@ ensures[C37:whole-object-read-not-refused] byteRange.Start == nil && byteRange.End == nil && err == storage.ErrInvalidRange ==>
+//@     called(mbs.partStores.ByName)
 //@ ensures[C37:empty-object-readable] byteRange.Start == nil && byteRange.End == nil && len(object.Parts) == 0 ==> err == nil
